@@ -141,9 +141,17 @@ def value_observations(rng, n):
         va, vb = cls(*a), rng.choice(list(tags))(*b)
         for op, fn in (('add', lambda: va + vb), ('sub', lambda: va - vb), ('neg', lambda: -va), ('mul', lambda: va * k),
                        ('rmul', lambda: k * va), ('floordiv', lambda: va // k)):
+            pass
+        vm = cls(a[0] * k, a[1] * k, a[2] * k)
+        for op, fn in (('add', lambda: va + vb), ('sub', lambda: va - vb), ('neg', lambda: -va), ('mul', lambda: va * k),
+                       ('rmul', lambda: k * va), ('floordiv', lambda: va // k), ('truediv', lambda: vm / k)):
             try:
                 r = fn()
-                obs.append({'k': 'vec', 'op': op, 'a': a, 'b': b, 'n': k, 'r': [r[0], r[1], r[2]], 'tin': tags[cls],
+                aa = [a[0] * k, a[1] * k, a[2] * k] if op == 'truediv' else a
+                rr = [r[0], r[1], r[2]]
+                if op == 'truediv':
+                    rr = [int(x) if float(x).is_integer() else 10 ** 6 for x in rr]
+                obs.append({'k': 'vec', 'op': op, 'a': aa, 'b': b, 'n': k, 'r': rr, 'tin': tags[cls],
                             'tout': tags.get(type(r), type(r).__name__)})
             except Exception as e:      # noqa
                 obs.append({'k': 'vec', 'op': op, 'a': a, 'b': b, 'n': k, 'r': [0, 0, 0], 'tin': tags[cls], 'tout': 'raised ' + type(e).__name__})
